@@ -9,6 +9,18 @@ TRUST = [
 ]
 
 CONFIG = {
+    "C03": {
+        "level": "exploration",
+        "assumptions": TRUST + ["descriptions are not compared (the statement does not list them)", "worlds are mergeable by construction of the generator"],
+        "quick": {"tests": [("TestC03", 2500)], "shards": 4, "timeout": 600},
+        "thorough": {"tests": [("TestC03", 40000)], "shards": 16, "timeout": 1800},
+    },
+    "C04": {
+        "level": "exploration",
+        "assumptions": TRUST + ["the routed-services clause is checked as: routed => declares a routable field, and sole owner of a field => routed (services whose only fields are shadowed copies of shared value types are not required to be routed)"],
+        "quick": {"tests": [("TestC04", 2500)], "shards": 4, "timeout": 600},
+        "thorough": {"tests": [("TestC04", 40000)], "shards": 16, "timeout": 1800},
+    },
     "C20": {
         "level": "exploration",
         "assumptions": TRUST + ["interleavings are controlled at the callbacks and at the 9 verif hook points in AsyncMapReduce; orders between two hook points are sampled by the Go scheduler"],
